@@ -34,8 +34,11 @@ RULE = {
     'C17': 'random schedules of 2-3 presence services (one ZooKeeper session each) on one shared fake '
            'ensemble: create/delete requests for successive containers of the same instance(s), watch-'
            'triggered retries, session expiry (restart or same process) at arbitrary ZooKeeper calls, '
-           'interleaved at single-ZooKeeper-call granularity (70 %) or request granularity (30 %), plus '
-           'unregister_*/_unschedule calls and foreign persistent nodes; non-trivial = two clients '
+           'interleaved at single-ZooKeeper-call granularity (70 %) or request granularity (30 %; 40 % of '
+           'all cases start with the old-container/newer-container/expiry/clean-up skeleton), plus '
+           'unregister_* (only while all clients are idle) / _unschedule calls run to completion and '
+           'foreign persistent nodes (malformed stream: junk data squatting on presence paths, missing '
+           'parent directories, requests on busy clients, retries without cause); non-trivial = two clients '
            'registered containers of the same instance AND a create had to wait for a foreign node AND '
            'a delete request removed a node AND (a session expired OR a watch fired a retry); '
            'distinct = distinct op-list hash',
